@@ -214,7 +214,10 @@ func (vc *VC) planUpdates() {
 	}
 	for site := range want {
 		if !used[site] {
-			panic(unsupported("update site %q does not exist in %s", site, vc.fn))
+			// the program point named by the contract no longer exists: the
+			// ghost update is skipped, and the obligations that depend on it
+			// fail on their own
+			vc.warnings = append(vc.warnings, fmt.Sprintf("update site %q does not exist in %s; ghost update skipped", site, vc.fn))
 		}
 	}
 }
